@@ -32,6 +32,14 @@ theorem efrag_bin (T : Stat) (op : BinOp) (t : CSem.Ty) (l r : Expr3) (h : efrag
   · exact ⟨⟨Or.inl h1, h2⟩, ⟨Or.inl h1, h3⟩⟩
   · exact ⟨⟨Or.inr h1, h2⟩, ⟨Or.inr h1', h3⟩⟩
 
+theorem efrag_comma (T : Stat) (t : CSem.Ty) (l r : Expr3) (h : efrag T (.comma t l r)) :
+    efrag T l ∧ efrag T r := by
+  simp only [efrag, Expr3.callsOK, Expr3.arrsOK, Bool.and_eq_true, Bool.or_eq_true] at h ⊢
+  obtain ⟨h1, h2, h3⟩ := h
+  rcases h1 with h1 | ⟨h1, h1'⟩
+  · exact ⟨⟨Or.inl h1, h2⟩, ⟨Or.inl h1, h3⟩⟩
+  · exact ⟨⟨Or.inr h1, h2⟩, ⟨Or.inr h1', h3⟩⟩
+
 theorem efrag_cond (T : Stat) (t : CSem.Ty) (c a b : Expr3) (h : efrag T (.cond t c a b)) :
     efrag T c ∧ efrag T a ∧ efrag T b := by
   simp only [efrag, Expr3.callsOK, Expr3.arrsOK, Bool.and_eq_true, Bool.or_eq_true] at h ⊢
@@ -228,7 +236,7 @@ theorem sim_exprOut3 (n : Nat) (hc : CallOK T n) {pre post : List Item} (hp : Po
     (callOf T.P fun s' st' => exec T.S.cs T.P n s' st')
     (fun env1 => ∀ j t', (T.vtys.take nd)[j]? = some t' →
       env1[tmpName (c.slots.getD j 0)]? = env[tmpName (c.slots.getD j 0)]?)
-    hX (efrag T) (efrag_cast T) (efrag_neg T) (efrag_bin T) (efrag_cond T)
+    hX (efrag T) (efrag_cast T) (efrag_neg T) (efrag_bin T) (efrag_cond T) (efrag_comma T)
     (fun t arr cnt xb i k pre' post' env1 v' h1 h2 h3 h4 h5 h6 h7 h8 =>
       sim_idxleaf T env inv hpre _ t arr cnt xb i k pre' post' env1 v' h1 h2 h3 h4 h5 h6 h7 h8)
     (fun rt fn args k pre' post' env1 v' h1 h2 h3 h4 h5 h6 h7 h8 =>
